@@ -372,9 +372,33 @@ def r4(ctx: Ctx) -> None:
     # writer uses _encode_bound, reader uses _decode_bound, for both maps
     cm = ctx.fn("file_manager.FileManager.create_manifest_file")
     rm = ctx.fn("file_manager.FileManager.read_manifest_file")
-    ne = sum(1 for n in ast.walk(cm.node) if isinstance(n, ast.Call) and (dotted(n.func) or "").endswith("_encode_bound"))
-    nd = sum(1 for n in ast.walk(rm.node) if isinstance(n, ast.Call) and (dotted(n.func) or "").endswith("_decode_bound"))
-    ctx.ob("C13.R4", cm, "both bound maps are encoded / decoded", None, ne >= 2 and nd >= 2, f"{ne} encode sites, {nd} decode sites", text="sites")
+    def _codec_sites(f: FunctionInfo, codec: str) -> Dict[str, bool]:
+        """For the values stored under / passed as lower_bounds and upper_bounds in f: does the value derive from a
+        call of `codec` (possibly inside a helper introduced later)?"""
+        g_ = ctx.cfg(f)
+        sl_ = ctx.slicer(f)
+        res: Dict[str, bool] = {}
+        for n in g_.nodes:
+            if n.ast is None or n.kind not in ("stmt", "call", "return"):
+                continue
+            root = n.ast
+            for x in ast.walk(root):
+                pairs = []
+                if isinstance(x, ast.Dict):
+                    pairs = [(k.value, v) for k, v in zip(x.keys, x.values) if isinstance(k, ast.Constant)]
+                elif isinstance(x, ast.Call):
+                    pairs = [(k.arg, k.value) for k in x.keywords if k.arg]
+                for key, v in pairs:
+                    if key in ("lower_bounds", "upper_bounds"):
+                        org = sl_.origins(v, n.id)
+                        hit = any(isinstance(c, ast.Call) and (dotted(c.func) or "").endswith(codec) for c in org["calls"])
+                        res[key] = res.get(key, False) or hit
+        return res
+
+    es, ds = _codec_sites(cm, "_encode_bound"), _codec_sites(rm, "_decode_bound")
+    ctx.ob("C13.R4", cm, "both bound maps are encoded / decoded", None,
+           es.get("lower_bounds", False) and es.get("upper_bounds", False) and ds.get("lower_bounds", False) and ds.get("upper_bounds", False),
+           f"encoded on write: {es}; decoded on read: {ds}", text="sites")
 
 
 def r5r6(ctx: Ctx) -> None:
